@@ -141,7 +141,8 @@ func genC09(tier string, rng *Rng) {
 	}
 	// text fields with characters that are special to formatting functions, shells, JSON
 	for _, asc := range []bool{false, true} {
-		specials := []string{"Iris 50%", "%d items", "100%% %s", "%!|x", "a\\b\\n", "say \"hi\"", "it's", "Gr\u00fc\u00dfe \u00b0C", "%", "tab\there", "{json: [1,2]}", "$(x) `y`"}
+		specials := []string{"Iris 50%", "%d items", "100%% %s", "%!|x", "a\\b\\n", "say \"hi\"", "it's", "Gr\u00fc\u00dfe \u00b0C", "%", "tab\there", "{json: [1,2]}", "$(x) `y`",
+			"Iris: ", "ends in tab\t", "nbsp\u00a0", " both ", "  ", "cr\r", "x\u2003"}
 		cs := goodConn(1)
 		if asc {
 			cs = goodAscConn("HWC#1=Down")
